@@ -67,6 +67,8 @@ def shards_for(tier, seed, prop):
     if prop == "C04" or tier != "quick":
         for olap in (0.9, 0.95) if tier != "quick" else (0.9,):
             out.append({"prop": prop, "N": 200000, "fs": 2.0, "tier": tier, "spot": True, "olap": olap, "huge": True})
+    if prop == "C02":   # one plan with more than 2^22 segments in a bin, built through the analyzer
+        out.append({"prop": prop, "N": 2 ** 23 + 5, "fs": 2.0, "tier": tier, "mega": True})
     out.sort(key=lambda s: -s["N"])
     return out
 
@@ -209,6 +211,21 @@ def run_shard_for(shard):
         olaps = [0.0, 0.5, 0.5, 0.75, 0.75, 0.99, 0.99, 0.0]  # 4 distinct values (indexable by olap_idx)
     if "olap_idx" in shard:
         olaps = sorted({olaps[i] for i in shard["olap_idx"]})
+    if shard.get("mega"):
+        fails, evals, nbins = [], 0, 0
+        cfg = {"N": N, "fs": fs, "olap": 0.75, "bmin": 1.0, "Lmin": 1, "Jdes": 12, "Kdes": 10}
+        for name in ("vectorized_ltf", "lpsd"):
+            evals += 1
+            aplan, aerr = call_analyzer(name, cfg, limit=1500)
+            if aerr is not None:
+                fails.append(fw.fail(f"{name}/analyzer-raises/mega", f"SpectrumAnalyzer(scheduler={name!r}, {cfgkey(cfg)}).plan() raised {aerr}", {"sched": "mega", "cfg": cfg, "prop": prop}))
+                continue
+            nbins += len(aplan["f"])
+            for tag, msg in spec.c02(aplan, cfg, name):
+                fails.append(fw.fail(f"{name}/analyzer/{tag}/mega", f"analyzer plan {name} ({cfgkey(cfg)}): {msg}", {"sched": "mega", "cfg": cfg, "prop": prop, "name": name}))
+            del aplan
+        return {"evals": evals, "nontrivial": evals, "failures": fails, "samples": [{"cfg": cfg, "mega": True}],
+                "extra": {"rejected_inadmissible": 0, "bins_checked": nbins}}
     spot = shard.get("spot")
     if spot:
         olaps, Jd, Kd = [shard["olap"]], [50, 500], [10, 100]
@@ -279,6 +296,8 @@ def run_shard_for(shard):
 
 def replay_for(case):
     logging.disable(logging.CRITICAL)
+    if case["sched"] == "mega":
+        return run_shard_for({"prop": case["prop"], "N": case["cfg"]["N"], "fs": case["cfg"]["fs"], "tier": "quick", "mega": True})["failures"]
     if case["sched"] == "lpsd-configured":
         cfg = case["cfg"]
         aplan, aerr = call_analyzer("lpsd", cfg, as_callable=case["callable"])
